@@ -168,12 +168,13 @@ def families():
                                   (2, 2): um(dict[str, SM.Snapshot], lambda: {"k": SM.snap2()})},
         "inserting_mapping_input": {(1, 1): um(SM.Search, lambda: SM.params()), (1, 2): ma(dict[str, str], lambda: SM.params()),
                                     (2, 1): um(SM.Paging, lambda: SM.params2()), (2, 2): (lambda x: typelib.encode(x, t=dict[str, str]), lambda: SM.params2())},
-        # annotations written inline at the call site: a new annotation object per call, dead when the call returns (what a later,
-        # different annotation at the same address is served is the subject)
-        "throwaway_annotations": {(1, 1): (lambda x: typelib.unmarshal(eval("list[int]"), x), lambda: ["1", "2"]),
-                                  (1, 2): (lambda x: typelib.unmarshal(eval("dict[str, float]"), x), lambda: {"a": "1"}),
-                                  (2, 1): (lambda x: typelib.marshal(x, t=eval("tuple[int, str]")), lambda: (1, "one")),
-                                  (2, 2): (lambda x: typelib.marshal(x, t=eval("dict[str, int]")), lambda: {"a": 1, "b": 2})},
+        # annotations written inline at the call site: a new annotation object per call (the subscription is evaluated inside the
+        # lambda), dead when the call returns; three calls per cell (what a later, different annotation at the address of a dead
+        # one is served is the subject)
+        "throwaway_annotations": {(1, 1): (lambda x: [typelib.unmarshal(list[int], x) for _ in range(3)][-1], lambda: ["1", "2"]),
+                                  (1, 2): (lambda x: [typelib.unmarshal(dict[str, float], x) for _ in range(3)][-1], lambda: {"a": "1"}),
+                                  (2, 1): (lambda x: [typelib.marshal(x, t=tuple[int, str]) for _ in range(3)][-1], lambda: (1, "one")),
+                                  (2, 2): (lambda x: [typelib.marshal(x, t=dict[str, int]) for _ in range(3)][-1], lambda: {"a": 1, "b": 2})},
         # numbers read as seconds since the epoch, near a UTC midnight
         "epoch_numbers": {(1, 1): um(datetime.date, lambda: 64800), (1, 2): um(datetime.date, lambda: 86399.5),
                           (2, 1): um(datetime.date, lambda: "64800"), (2, 2): um(datetime.datetime, lambda: 1709249400)},
